@@ -140,6 +140,28 @@ def fixed_sessions(rng, tables):
             return steps
 
         makers.append((False, mk_pin))
+    # a repeated SERVICE_REQUEST("ssh-userauth") between requests (paramiko's own client sends one before every attempt)
+    # changes neither the pin nor the counter
+    def svc(gen):
+        return L.mk_step(gen, 5, S(b"ssh-userauth"))
+
+    for first in (2, 1):
+        def mk_svc_pin(sid, first=first):
+            gen = L.Gen(rng, "c16", tables)
+            user = gen.user
+            return [svc(gen), pw(gen, user, first), svc(gen), pw(gen, user + b"2", 0), pw(gen, user, 0)]
+
+        makers.append((False, mk_svc_pin))
+    for before in (4, 9):
+        def mk_svc_cap(sid, before=before):
+            gen = L.Gen(rng, "c16", tables)
+            user = gen.user
+            steps = [svc(gen)] + [pw(gen, user, 2) for _ in range(before)] + [svc(gen)]
+            steps += [pw(gen, user, 2) for _ in range(10 - before)] + [svc(gen), pw(gen, user, 2), pw(gen, user, 0)]
+            return steps
+
+        makers.append((False, mk_svc_cap))
+
     # the budget counts every request answered with USERAUTH_FAILURE, whatever value the application used to say no
     for odd in (None, -1, "no", 3):
         def mk_odd(sid, odd=odd):
